@@ -204,6 +204,31 @@ def run_schedule(info, rng, policy="random", check_mutation=True):
     cache = {}
     muts = []
     prio = {k: i for i, k in enumerate(info["order"])}
+    if policy == "demand":
+        # demand-driven: depth-first from the output keys (what a culling scheduler does); tasks nothing depends on run last
+        seq, seen = [], set()
+        for root in list(outs) + [k for k in graph]:
+            stack = [(root, iter(sorted(waiting.get(root, ()), key=lambda d: prio[d])))]
+            if root in seen:
+                continue
+            seen.add(root)
+            while stack:
+                node, it = stack[-1]
+                nxt = next((d for d in it if d not in seen), None)
+                if nxt is None:
+                    seq.append(node)
+                    stack.pop()
+                else:
+                    seen.add(nxt)
+                    stack.append((nxt, iter(sorted(waiting.get(nxt, ()), key=lambda d: prio[d]))))
+        for k in seq:
+            before = {d: fingerprint(cache[d]) for d in deps[k] if d != k} if check_mutation else {}
+            cache[k] = _execute_task(graph[k], cache)
+            if check_mutation:
+                for d, fp in before.items():
+                    if fingerprint(cache[d]) != fp:
+                        muts.append("task %r modified its input %r" % (k, d))
+        return [cache.get(o) for o in outs], muts
     while ready:
         if policy == "random":
             i = rng.randrange(len(ready))
